@@ -126,8 +126,21 @@ def run_case(ctx, case):
             break
     else:
         raise core.Skip('no hard-core pair generated')
+    sp['via'] = str(rng.choice(G.VIAS))
+    sp['kT_via'] = str(rng.choice(['ctor', 'assign']))
     with np.errstate(all='ignore'):
-        p = G.build(sp).createPRISM()
+        s = G.build(sp)
+        if rng.random() < 0.5:
+            # diameter sweep on one System: objects were already created for smaller / larger diameters before
+            final = dict(sp['d'])
+            for step in (-2, +1):
+                for t in sp['types']:
+                    s.diameter[t] = max(sp['dr'] * 2, final[t] + step * sp['dr'])
+                s.createPRISM()
+            for t in sp['types']:
+                s.diameter[t] = final[t]
+            ctx.hook('diameter_sweep_history')
+        p = s.createPRISM()
     # registry: closure instance of the live object -> pair info computed from the USER's inputs
     _S['registry'] = {}
     ncore_pairs = 0
